@@ -86,16 +86,16 @@ func execRace(spec string) (res engine.Result) {
 		res.Fail("harness:bad-spec", spec)
 		return
 	}
-	bin := filepath.Join(engine.BuildDir, "vcheck-C17-race")
+	bin := filepath.Join(engine.BuildDir, "vcheck-"+RaceBinary+"-race")
 	if _, err := os.Stat(bin); err != nil {
-		res.Fail("harness:race-binary-missing", bin+" (built by bin/build C17 with VERIF_RACE=1)")
+		res.Fail("harness:race-binary-missing", bin+" (built by bin/build with VERIF_RACE=1)")
 		return
 	}
 	dir := filepath.Join(engine.ScratchDir, fmt.Sprintf("C17-race-%d-%s", os.Getpid(), sc.name))
 	_ = os.MkdirAll(dir, 0o755)
 	defer os.RemoveAll(dir)
 	inner := "explore|" + strings.Join(p[1:], "|")
-	cmd := exec.Command(bin, "exec", "C17", "--spec", inner)
+	cmd := exec.Command(bin, "exec", RaceBinary, "--spec", inner)
 	cmd.Env = append(os.Environ(), "GOMAXPROCS=1", "GORACE=halt_on_error=0 log_path="+filepath.Join(dir, "race"))
 	var out, errb bytes.Buffer
 	cmd.Stdout, cmd.Stderr = &out, &errb
